@@ -66,10 +66,11 @@ def _json_lines(res: Any) -> List[Dict[str, Any]]:
 # TLC jobs
 # =====================================================================================================
 
-def _storage_cfg(raw: bool, maxops: int, invs: List[str], export: bool = False, always: bool = False, probe: bool = False) -> str:
+def _storage_cfg(raw: bool, maxops: int, invs: List[str], export: bool = False, always: bool = False, probe: bool = False,
+                 prefix: str = "t") -> str:
     return tlc.make_cfg(
         spec="Spec",
-        constants={"Keys": set(KEYS), "TablePrefix": "t", "S3ListRaw": raw, "S3ExistsAlwaysLists": always,
+        constants={"Keys": set(KEYS), "TablePrefix": prefix, "S3ListRaw": raw, "S3ExistsAlwaysLists": always,
                    "Contents": set(CONTENTS), "Dirs": set(DIRS), "MaxOps": maxops, "ProbeDirs": probe, "DoExport": export},
         invariants=invs + (["ExportInv"] if export else []), view="View", check_deadlock=False)
 
@@ -95,17 +96,35 @@ def _retry_cfg(maxr: int = 5, classes: Optional[List[str]] = None, export: bool 
         invariants=(invs if invs is not None else ["RetryContract"]) + (["ExportInv"] if export else []), check_deadlock=False)
 
 
+def _code_lists_raw() -> bool:
+    """Which variant of list_files does the code under test contain?  (The main model must describe the
+    code as it is: S3ListRaw = TRUE for the raw string-prefix listing, FALSE once the repair
+    findings/C20-s3-list-sibling-prefix.diff is applied.)  Decided by one probe call."""
+    from .. import fakes3
+
+    fake = fakes3.FakeS3()
+    be = fakes3.make_backend(fake, prefix="t")
+    fake.seed("t/data2/y", b"")
+    be.list_files("data")
+    return [e["prefix"] for e in fake.log if e["op"] == "list_objects_v2"][:1] == ["t/data"]
+
+
 def _run_jobs(ctx: Ctx, quick: bool) -> Dict[str, Any]:
+    raw = _code_lists_raw()
+    ctx.cov["model_variant"] = "S3ListRaw=TRUE (code lists by raw string prefix)" if raw else "S3ListRaw=FALSE (code lists '<dir>/')"
+    main_inv = "AgreeExceptSiblingLeak" if raw else "BackendsAgree"
     bind_depth = 3 if quick else 4
     check_depth = 4 if quick else 5
     rsizes = [0, 1, 2, 5] if quick else [0, 1, 2, 5, 8]
     rsteps = 4 if quick else 5
     # name -> (module, cfg, expectation, kwargs); expectation: "hold" or the invariant that must be violated
     jobs: Dict[str, Tuple[str, str, str, Dict[str, Any]]] = {
-        "storage-asis-deep": ("MC_Storage", _storage_cfg(True, check_depth, ["AgreeExceptSiblingLeak", "Lockstep"]), "hold", {"workers": 8 if quick else "auto"}),
-        "storage-asis-export": ("MC_Storage", _storage_cfg(True, bind_depth, ["AgreeExceptSiblingLeak", "Lockstep"], export=True), "hold", {"workers": 2 if quick else 6}),
-        "storage-repaired": ("MC_Storage", _storage_cfg(False, bind_depth, ["BackendsAgree", "Lockstep"]), "hold", {"workers": 2 if quick else 6}),
-        "storage-asis-defect": ("MC_Storage", _storage_cfg(True, 2, ["BackendsAgree"]), "BackendsAgree", {"workers": 1}),
+        "storage-deep": ("MC_Storage", _storage_cfg(raw, check_depth, [main_inv, "Lockstep"]), "hold", {"workers": 8 if quick else "auto"}),
+        "storage-export": ("MC_Storage", _storage_cfg(raw, bind_depth, [main_inv, "Lockstep"], export=True), "hold", {"workers": 2 if quick else 6}),
+        "storage-export-prefix-a/b/": ("MC_Storage", _storage_cfg(raw, bind_depth - 1, [main_inv, "Lockstep"], export=True, prefix="a/b/"), "hold", {"workers": 2}),
+        "storage-export-no-prefix": ("MC_Storage", _storage_cfg(raw, bind_depth - 1, [main_inv, "Lockstep"], export=True, prefix=""), "hold", {"workers": 2}),
+        "storage-list-with-slash": ("MC_Storage", _storage_cfg(False, bind_depth, ["BackendsAgree", "Lockstep"]), "hold", {"workers": 2 if quick else 6}),
+        "storage-list-raw-prefix-defect": ("MC_Storage", _storage_cfg(True, 2, ["BackendsAgree"]), "BackendsAgree", {"workers": 1}),
         "storage-mutant-exists-lists": ("MC_Storage", _storage_cfg(False, 2, ["BackendsAgree"], always=True), "BackendsAgree", {"workers": 1}),
         "storage-limit-probe-dirs": ("MC_Storage", _storage_cfg(False, 2, ["BackendsAgree"], probe=True), "BackendsAgree", {"workers": 1}),
         "range-export": ("MC_RangeReader", _range_cfg(rsteps, rsizes, export=True), "hold", {"workers": 2 if quick else 6}),
@@ -124,7 +143,7 @@ def _run_jobs(ctx: Ctx, quick: bool) -> Dict[str, Any]:
         return tlc.run_tlc(module, cfg, label=name, timeout_s=1200, heap="3g", **kw)
 
     results: Dict[str, Any] = {}
-    order = sorted(jobs, key=lambda n: 0 if n == "storage-asis-deep" else (1 if "export" in n else 2))
+    order = sorted(jobs, key=lambda n: 0 if n == "storage-deep" else (1 if "export" in n else 2))
     with concurrent.futures.ThreadPoolExecutor(max_workers=5) as ex:
         futs = {n: ex.submit(one, n) for n in order}
         for n in order:
@@ -250,7 +269,9 @@ def _run_storage_state(env: _Env, rec: Dict[str, Any], ql: List[List[str]], idx:
     clk = [T0]
     fake = fakes3.FakeS3(clock=lambda: clk[0], page_size=2)
     fake.max_keys_cap = 2
-    s3 = fakes3.make_backend(fake, bucket="b", prefix="t")
+    tprefix = rec.get("prefix", "t")
+    canon = tprefix.rstrip("/")
+    s3 = fakes3.make_backend(fake, bucket="b", prefix=tprefix)
     base = os.path.join(env.root, f"s{idx}")
     os.mkdir(base)
     local = LocalStorageBackend(base)
@@ -284,15 +305,15 @@ def _run_storage_state(env: _Env, rec: Dict[str, Any], ql: List[List[str]], idx:
             e = _expected(rec, table, "read", k)
             if e[0] == "ok":
                 want[k] = CONTENTS[e[1]]
-        lr, dr = project.LocalReader(base), project.DictReader(fake.objects, "t")
+        lr, dr = project.LocalReader(base), project.DictReader(fake.objects, canon)
         for name, rd in (("local", lr), ("s3", dr)):
             have = {k: rd.read(k) for k in rd.list()}
             ncmp += 1
             if have != want:
                 problems.append({"backend": name, "op": "store", "p": "", "expected": sorted(want), "got": sorted(have),
                                  "sig": f"{name}:store-content:{'extra-keys' if set(have) - set(want) else ('missing-keys' if set(want) - set(have) else 'wrong-bytes')}"})
-        if [k for k in fake.objects if not k.startswith("t/")]:
-            problems.append({"backend": "s3", "op": "store", "p": "", "expected": "keys under t/", "got": sorted(fake.objects), "sig": "s3:store-content:outside-prefix"})
+        if canon and [k for k in fake.objects if not k.startswith(canon + "/")]:
+            problems.append({"backend": "s3", "op": "store", "p": "", "expected": f"keys under {canon}/", "got": sorted(fake.objects), "sig": "s3:store-content:outside-prefix"})
         # every query, both backends
         for qi, (op, p) in enumerate(ql):
             if only is not None and (op, p) != only:
@@ -373,7 +394,7 @@ def _bind_storage(ctx: Ctx, env: _Env, states: List[Dict[str, Any]], procs: int)
     for idx, rec in indexed:
         out = outs[idx]
         total += out["compared"]
-        ctx.count_case(("storage", rec["hist"]), nontrivial=len(rec["hist"]) > 0)
+        ctx.count_case(("storage", rec.get("prefix", "t"), rec["hist"]), nontrivial=len(rec["hist"]) > 0)
         ctx.count_traces(2)
         predicted = {(d[0], d[1]) for d in rec["diff"]}
         leak_predicted += len(predicted)
@@ -384,7 +405,7 @@ def _bind_storage(ctx: Ctx, env: _Env, states: List[Dict[str, Any]], procs: int)
                 leak_seen += 1
             ctx.violation(pr["sig"],
                           f"{pr['backend']} backend: {pr['op']}({pr['p']!r}) after {json.dumps(rec['hist'])} returned {pr['got']!r}, the contract demands {pr['expected']!r}",
-                          {"mode": "storage", "hist": rec["hist"], "query": [pr["op"], pr["p"]], "problem": pr, "state": rec})
+                          {"mode": "storage", "table_prefix": rec.get("prefix", "t"), "hist": rec["hist"], "query": [pr["op"], pr["p"]], "problem": pr, "state": rec})
         # transcription says the code deviates here but the real code does not (or vice versa, already reported): drift
         drift += len(predicted - seen)
     ctx.cov["storage_states_replayed"] = len(states)
@@ -451,7 +472,7 @@ def _apply(f: Any, o: Dict[str, Any], buffered: bool) -> Dict[str, Any]:
             out["data"], out["ret"] = bytes(d), len(d)
         else:
             out["ret"] = f.tell()
-    except (ValueError, OSError) as e:
+    except Exception as e:  # noqa: BLE001 - whatever the reader raises is the reader's outcome
         out["err"] = True
         out["exc"] = type(e).__name__
     try:
@@ -911,9 +932,14 @@ def run(ctx: Ctx) -> None:
     results = _run_jobs(ctx, quick)
     if ctx.violations:
         return
-    states = _json_lines(results["storage-asis-export"])
-    if len(states) != results["storage-asis-export"].distinct:
-        raise MachineryError(f"storage export: {len(states)} records for {results['storage-asis-export'].distinct} distinct states")
+    states: List[Dict[str, Any]] = []
+    for job, tprefix in (("storage-export", "t"), ("storage-export-prefix-a/b/", "a/b/"), ("storage-export-no-prefix", "")):
+        part = _json_lines(results[job])
+        if len(part) != results[job].distinct:
+            raise MachineryError(f"{job}: {len(part)} records for {results[job].distinct} distinct states")
+        for rec in part:
+            rec["prefix"] = tprefix
+        states += part
     programs = _json_lines(results["range-export"])
     if len(programs) != results["range-export"].distinct:
         raise MachineryError(f"range export: {len(programs)} records for {results['range-export'].distinct} distinct states")
